@@ -177,3 +177,10 @@ class Nilsimsa(Case):
 
 for c in (Piecewise, Nilsimsa):
     register(c())
+
+
+# ---- lemmas for the stubs this check relies on (see props.common.Borrowed) ----
+from props.common import Borrowed, REGISTRY
+from props import c01 as _c01
+register(Borrowed(REGISTRY['C01.reverse_byte'], 'C14', 'reverse_byte'))
+register(Borrowed(REGISTRY['C01.leaf'], 'C14', 'hash_leaves'))
